@@ -1,0 +1,50 @@
+//! Verification hooks H1/H3 (only compiled with `--cfg rustfft_verif`). Add-only: nothing here is used by the crate itself.
+
+pub use crate::array_utils::{
+    validate_and_iter, validate_and_iter_unroll2x, validate_and_zip, validate_and_zip_mut,
+    validate_and_zip_mut_unroll2x, validate_and_zip_unroll2x,
+};
+pub use crate::array_utils::{compute_logarithm, reverse_bits};
+pub use crate::common::{fft_error_immut, fft_error_inplace, fft_error_outofplace};
+pub use crate::fft_helper::{
+    fft_helper_immut, fft_helper_immut_unroll2x, fft_helper_inplace, fft_helper_inplace_unroll2x,
+    fft_helper_outofplace, fft_helper_outofplace_unroll2x,
+};
+pub use crate::math_utils::{
+    distinct_prime_factors, modular_exponent, primitive_root, PartialFactors, PrimeFactor,
+    PrimeFactors,
+};
+
+/// Set the CPU-feature mask (bits: 1 = avx, 2 = fma, 4 = avx2, 8 = sse4.1). Features whose bit is cleared are reported as absent.
+#[cfg(target_arch = "x86_64")]
+pub fn set_feature_mask(mask: u32) {
+    crate::verif_mask::FEATURE_MASK.store(mask, std::sync::atomic::Ordering::Relaxed);
+}
+#[cfg(not(target_arch = "x86_64"))]
+pub fn set_feature_mask(_mask: u32) {}
+
+/// `(n as f32).sqrt() as usize + 1`, the trial-division limit used by `PrimeFactors::compute`
+pub fn f32_sqrt_limit(n: usize) -> usize {
+    (n as f32).sqrt() as usize + 1
+}
+
+/// RadixN is crate-private; expose a constructor for it (factors given as radix values 2..=7)
+pub fn new_radixn<T: crate::FftNum>(
+    factors: &[usize],
+    base_fft: std::sync::Arc<dyn crate::Fft<T>>,
+) -> std::sync::Arc<dyn crate::Fft<T>> {
+    use crate::common::RadixFactor;
+    let fs: Vec<RadixFactor> = factors
+        .iter()
+        .map(|f| match f {
+            2 => RadixFactor::Factor2,
+            3 => RadixFactor::Factor3,
+            4 => RadixFactor::Factor4,
+            5 => RadixFactor::Factor5,
+            6 => RadixFactor::Factor6,
+            7 => RadixFactor::Factor7,
+            _ => panic!("bad radix factor"),
+        })
+        .collect();
+    std::sync::Arc::new(crate::algorithm::RadixN::new(&fs, base_fft))
+}
